@@ -90,4 +90,36 @@ func init() {
 			}
 			return out
 		}})
+
+	c3993 := func(tier string, seed int64) []map[string]int {
+		var out []map[string]int
+		nb, nf := 3, 1
+		if tier == "thorough" {
+			nb, nf = 4, 2
+		}
+		for full := 0; full <= 1; full++ {
+			top := nb
+			if full == 1 {
+				top = nf
+			}
+			for n := 0; n <= top; n++ {
+				for cs := 0; cs <= 1; cs++ {
+					out = append(out, map[string]int{"n": n, "cs": cs, "full": full, "color": (n + cs) % 2})
+				}
+			}
+		}
+		return out
+	}
+	reg(&Oblig{ID: "C39", Pkg: "code39", Func: "VP_C39", Props: []string{"C07", "C10", "C11", "C14"},
+		Desc:  "Code 39: accepted exactly for text over the mode's alphabet; * data [mod-43 check] * with 3-of-9 patterns and narrow gaps, every module compared with the construction-derived patterns; Content = basic spelling; CheckSum() = mod-43 value; colours",
+		Real:  append([]string{"code39.Encode", "code39.EncodeWithColor", "code39.prepare", "code39.getChecksum", "utils.New1DCodeIntCheckSumWithColor"}, colReal...),
+		Stubs: []string{"oracle: patterns generated from the 3-of-9 construction (2-of-5 bar code per column, wide-space position per decade, $/+% special), full-ASCII table written from the symbology specification", "strings.ContainsRune modelled on the symbolic haystack (constant ASCII needle)"},
+		Bound: "content = n fully symbolic bytes: basic mode n<=3 (4 thorough), full-ASCII n<=1 (2 thorough; the 128-entry expansion forks per character) x checksum flag",
+		Configs: c3993})
+	reg(&Oblig{ID: "C93", Pkg: "code93", Func: "VP_C93", Props: []string{"C07", "C10", "C11"},
+		Desc:  "Code 93: accepted exactly for text over the mode's alphabet; * data [C K] * + termination bar, 9-module patterns, check characters mod 47 with weights 1..20 / 1..15; colours",
+		Real:  append([]string{"code93.Encode", "code93.EncodeWithColor", "code93.prepare", "code93.getChecksum"}, colReal...),
+		Stubs: []string{"content bytes assumed < 128 (the four FNC placeholders U+00F1..U+00F4 are outside this obligation)", "oracle: 48 nine-module patterns and the full-ASCII table transcribed from the symbology specification"},
+		Bound: "content = n symbolic ASCII bytes: basic mode n<=3 (4 thorough), full-ASCII n<=1 (2 thorough) x checksum flag",
+		Configs: c3993})
 }
